@@ -48,15 +48,16 @@ var hugeSpellings = []string{
 var invalidSpellings = []string{"abc", "-1", "1.5", "", "1e3", "0x10"}
 
 type concretiser struct {
-	rnd *rand.Rand
+	rnd    *rand.Rand
+	rndNum *rand.Rand // numbers are rendered alike in all members of a spelling group
 }
 
 func (c *concretiser) num(n int) string {
 	switch {
 	case n == Invalid:
-		return invalidSpellings[c.rnd.Intn(len(invalidSpellings))]
+		return invalidSpellings[c.rndNum.Intn(len(invalidSpellings))]
 	case n >= CAP:
-		return hugeSpellings[c.rnd.Intn(len(hugeSpellings))]
+		return hugeSpellings[c.rndNum.Intn(len(hugeSpellings))]
 	default:
 		return strconv.Itoa(n)
 	}
